@@ -485,6 +485,38 @@ def run(world, rep, tier, only=None):
            all(n.ev["o"] == "++" or T.const(n.ev.get("rhs")) == 1 for n in inc),
            "data->undo_blk_num++ follows the undo-file data write")
 
+    # ------------------------------------------------------------------ C12.l every call of a tool's undo set-up switches the I/O manager
+    # The tools point their io_manager variable at the plain manager before every open (e2fsck: after `restart:`) and
+    # count on <tool>_setup_tdb() to put undo_io_manager there.  Each return of 0 must have done so - unless it is the
+    # "no usable undo directory" exit - on every call, not only on the first.
+    n_l = 0
+    SETUPS = (("e2fsck", "e2fsck_setup_tdb", "e2fsck/unix.c"), ("tune2fs", "tune2fs_setup_tdb", "misc/tune2fs.c"),
+              ("resize2fs", "resize2fs_setup_tdb", "resize/main.c"), ("mke2fs", "mke2fs_setup_tdb", "misc/mke2fs.c"),
+              ("debugfs", "debugfs_setup_tdb", "debugfs/debugfs.c"))
+    for (pn, fname, ffile) in SETUPS:
+        pr = world.program(pn)
+        if not pr.has_fn(fname, ffile):
+            continue
+        sf = pr.fn(fname, ffile)
+        n_l += 1
+        switch = [n for n in sf.events("S") if isinstance(T.strip(n.ev["lhs"]), dict) and T.strip(n.ev["lhs"]).get("k") == "u" and
+                  T.strip(n.ev["lhs"]).get("o") == "*" and T.path(n.ev.get("rhs")) == "undo_io_manager"]
+        nodir = [n for n in calls_to(sf, "access", "strcmp")]
+        ex = absint.Explorer(sf, pr)
+
+        def mark(node, env, flags, _s=switch, _n=nodir):
+            if node in _s:
+                return flags | {"switched"}
+            if node in _n:
+                return flags | {"dirtest"}
+            return flags
+        terms = ex.run([sf.entry_node()], on_node=mark)
+        bare = sorted({node.line for (node, env, fl, st) in terms if node.ev and node.ev["e"] == "R" and
+                       not absint._nz(ex.eval(node.ev.get("x"), env)) and not (fl & {"switched", "dirtest"})})
+        rep.ob("C12.l", site(sf, "a return of 0 has switched to undo_io_manager (or found no undo directory)"), bool(switch) and not bare,
+               "returns that may be 0 without `*io_ptr = undo_io_manager` and without the directory test: lines %s" % bare)
+    rep.floor("C12.l undo set-up functions of the tools", n_l, 4)
+
     # ------------------------------------------------------------------ C12.f e2undo
     cbm = check_blocks(main)
     dev_writes = [n for n in main.call_nodes() if effects.is_write_req(main, n) and T.path(arg(n, 0)) == "channel"]
